@@ -203,8 +203,12 @@ def conclude(pid, spec, results, tier, seed, wall, kani=(), extra_viol=()):
                     # property demands the exact result (or, for checked_* functions, any input at all): an
                     # arithmetic overflow there is a panic (dev) or a wrapped value (release) where the property
                     # allows neither, so it is a violation of this property too.
-                    if pid != 'C20' and r.mode != 'F':
-                        continue
+                    # In the D-run the site is an implicit panic: present in dev builds, a silently wrapped value in
+                    # builds without overflow checks.  That is C20's subject, but it is also a violation of the
+                    # property whose operation contains the site: the properties are stated for every build, and a
+                    # wrapped sum / product is neither the exact result nor the demanded panic (round 7: a plain `*`
+                    # in the integer-on-the-left operator impls left C01 / C02 at exit 0 while C20 reported it).
+                    pass
                 k = findings.match(key, known)
                 if k is not None and pid in k.get('property', []):
                     known_hit[(k['id'], k.get('clause') or k.get('expr'), fn)] = k
